@@ -237,6 +237,7 @@ func (r *runner) crashExec(op Op, depth int) (obs, []crashObs) {
 type runner struct {
 	rs      *recStore
 	crashD  int
+	qsel    func(i int) bool // which plan headers an observation looks up (nil: all)
 	ctx     context.Context
 	cfg     *headers.Config
 	store   *storage.MockStorage
@@ -448,7 +449,10 @@ func (r *runner) snapshot() obs {
 		o.chain = append(o.chain, 0)
 	}
 	qs := make([]bitcoin.Hash32, 0, len(r.hdrs)+1)
-	for _, h := range r.hdrs {
+	for i, h := range r.hdrs {
+		if r.qsel != nil && !r.qsel(i) {
+			continue
+		}
 		qs = append(qs, *h.BlockHash())
 	}
 	qs = append(qs, r.unknown)
@@ -601,8 +605,16 @@ func coqCase(c *Case) (string, map[string]int) {
 		return l
 	}
 	nq := len(c.Hdrs) + 1
+	if len(c.Hdrs) > 300 {
+		// long histories: look up the first headers, a sample, and everything from shortly below
+		// the 1000-header file boundary upwards
+		r.qsel = func(i int) bool { return i < 3 || i%97 == 0 || i >= 985 }
+	}
 	qs := make([]int, 0, nq)
 	for i := range c.Hdrs {
+		if r.qsel != nil && !r.qsel(i) {
+			continue
+		}
 		qs = append(qs, i+1)
 	}
 	qs = append(qs, 999999)
@@ -1209,6 +1221,22 @@ func main() {
 				sz = 8 // plenty of tiny trees
 			}
 			c := genCase(root.Fork(uint64(i)), len(cases), pf, sz)
+			if (*prof == "C09" || *prof == "C11") && i%50 == 13 {
+				// a history across the 1000-header file boundary with the whole first file in
+				// pruned history (observations only after loads / cleans and at the end)
+				var ops []Op
+				for j, op := range c.Ops {
+					if op.K == "observe" && j+1 < len(c.Ops) && !(j > 0 && (c.Ops[j-1].K == "load" || c.Ops[j-1].K == "clean")) {
+						continue
+					}
+					if (op.K == "load" || op.K == "clean") && op.D > 6 {
+						op.D = 2 + op.D%5
+					}
+					ops = append(ops, op)
+				}
+				c.Ops = ops
+				c = prependChain(c, 1010+root.Fork(uint64(i)^0xb0b).Intn(15))
+			}
 			if *prof == "C12" {
 				c = dropOps(c, "observe")
 				if i%25 == 7 { // work across the boundary between header files 0 and 1
